@@ -35,7 +35,7 @@ def n_cases(tier):
 def gen_case(rng, tier, idx):
     pins = rng.choice([1, 2, 3, 4, 5, 8, 9, 12, 16, 17, 20, 31, 32, 33])
     dw = rng.choice([8, 8, 16, 32, 64])
-    return {"pins": pins, "dw": dw, "stages": rng.choice([0, 1, 1, 2, 2, 3, 4]), "aw_extra": rng.choice([0, 0, 1, 3]),
+    return {"pins": pins, "dw": dw, "stages": rng.choice([0, 1, 1, 2, 2, 3, 4, 5, 6, 9]), "aw_extra": rng.choice([0, 0, 1, 3]),
             "cycles": (400 if tier == "quick" else 1000) * (6 if rng.random() < 0.04 else 1)}
 
 
